@@ -604,6 +604,43 @@ func sliceParamRoots(h *ssa.Function, v ssa.Value, seen map[ssa.Value]bool, d in
 			}
 			return out, true
 		}
+		// another helper of the package that grows one of ITS parameters: what comes back is grown from the
+		// corresponding arguments
+		if g := sx.Callee(x); g != nil && g.Blocks != nil && g.Pkg == h.Pkg && !sx.Exported(g) && d < 6 {
+			grows := map[int]bool{}
+			rets := sx.Returns(g)
+			for _, gr := range rets {
+				if len(gr.Results) != 1 {
+					return nil, false
+				}
+				if freshSlice(gr.Results[0], 0) {
+					continue
+				}
+				r, ok := sliceParamRoots(g, gr.Results[0], map[ssa.Value]bool{}, d+1)
+				if !ok {
+					return nil, false
+				}
+				for k := range r {
+					grows[k] = true
+				}
+			}
+			if len(rets) == 0 {
+				return nil, false
+			}
+			for j := range grows {
+				if j >= len(x.Call.Args) {
+					return nil, false
+				}
+				r, ok := sliceParamRoots(h, x.Call.Args[j], seen, d+1)
+				if !ok {
+					return nil, false
+				}
+				for k := range r {
+					out[k] = true
+				}
+			}
+			return out, true
+		}
 	}
 	return nil, false
 }
